@@ -40,6 +40,8 @@ type Contract struct {
 	Assigns []ast.Expr
 	HasAssigns bool
 	Inline, Trusted, NoPanic, Pure, Havoc bool
+	NoSendProps []string
+	NoSend bool // no reachable blocking channel send in the function's own code (followed callees included)
 	PureValue bool
 	PureRef   bool
 	MustCall []*Clause // "mustcall" style clauses are expressed through ghosts; reserved
@@ -430,6 +432,16 @@ func (cs *ContractSet) parseFile(pkgPath, file string) error {
 			cur.Trusted = true
 		case "nopanic":
 			cur.NoPanic = true
+		case "nosend":
+			// nosend [@Cxx,...]: no reachable blocking channel send
+			cur.NoSend = true
+			for _, f := range strings.Fields(rest) {
+				for _, p := range strings.Split(strings.TrimPrefix(f, "@"), ",") {
+					if p != "" {
+						cur.NoSendProps = append(cur.NoSendProps, p)
+					}
+				}
+			}
 		case "pure":
 			cur.Pure = true
 		case "pureref":
